@@ -152,8 +152,10 @@ func Handle(req Request) Response {
 		if err != nil {
 			return Response{Runs: []Run{{Err: "harness: " + err.Error()}}}
 		}
-		dir = d
-		defer os.RemoveAll(dir)
+		defer os.RemoveAll(d)
+		// the tree lives two levels below the temp dir so that generated "../.." style imports stay inside it
+		dir = filepath.Join(d, "a", "w")
+		os.MkdirAll(dir, 0o755)
 		for name, content := range req.Files {
 			p := filepath.Join(dir, name)
 			if strings.HasSuffix(name, "/") {
